@@ -76,3 +76,19 @@ int __real_mbtowc(wchar_t *w, const char *s, size_t n);
 int __wrap_mbtowc(wchar_t *w, const char *s, size_t n) { touch_mbstate(); return __real_mbtowc(w, s, n); }
 int __real_wctomb(char *s, wchar_t w);
 int __wrap_wctomb(char *s, wchar_t w) { touch_mbstate(); return __real_wctomb(s, w); }
+
+/* Descriptor lifetime.  Descriptor numbers are process-wide: when the code under test closes a
+ * number that is not open (typically the second close of one descriptor), any other thread
+ * that opened a file in between has been handed exactly that number and loses it.  The harmful
+ * interleaving needs a window of microseconds; the EBADF result of the stray close is there in
+ * every run, so it is counted here and judged by the property after each case. */
+#include <errno.h>
+#include <sched.h>
+int zckv_fd_misuse;
+int __real_close(int fd);
+int __wrap_close(int fd) {
+    int r = __real_close(fd);
+    if (r < 0 && errno == EBADF) __atomic_fetch_add(&zckv_fd_misuse, 1, __ATOMIC_RELAXED);
+    else sched_yield();          /* give other threads a chance to allocate the number just released */
+    return r;
+}
